@@ -144,7 +144,7 @@ Qed.
 Lemma run_loop_no_panic fuel l g : forall m r, no_panic (run_loop fuel l g m r).
 Proof.
   induction fuel as [|k IH]; intros m r; [exact I|].
-  cbn [run_loop]. destruct (m_instr m); [exact I|].
+  cbn [run_loop]. destruct (m_instr m); [destruct (m_calls m); [exact I|apply IH]|].
   apply no_panic_bind; [apply step_no_panic|].
   intros [m' r'|r'] _; [apply IH|exact I].
 Qed.
@@ -156,10 +156,16 @@ Proof. unfold load_glyph. apply no_panic_bind; [apply run_loop_no_panic|intros; 
 Inductive reaches (l g : list (list Z)) : machine -> reader -> machine -> reader -> Prop :=
 | reach_refl m r : reaches l g m r m r
 | reach_step m r m1 r1 m2 r2 : m_instr m <> [] -> step l g m r = Ok (Continue m1 r1) -> reaches l g m1 r1 m2 r2 ->
+    reaches l g m r m2 r2
+| reach_return m r c cs m2 r2 : m_instr m = [] -> m_calls m = c :: cs -> reaches l g (mkM c cs (m_args m)) r m2 r2 ->
     reaches l g m r m2 r2.
 
 Lemma reaches_inv l g m r m' r' : reaches l g m r m' r' -> m_inv m -> m_inv m'.
-Proof. induction 1; intros Hi; [exact Hi|]. apply IHreaches. eapply step_inv; eauto. Qed.
+Proof.
+  induction 1; intros Hi; [exact Hi| |].
+  - apply IHreaches. eapply step_inv; eauto.
+  - apply IHreaches. destruct Hi as [Ha Hc]. unfold m_inv. cbn. rewrite H0 in Hc. cbn [length] in Hc. split; [exact Ha|lia].
+Qed.
 
 Lemma stack_bounds_lemma l g cs m r :
   reaches l g (mkM cs [] []) rd_init m r ->
@@ -385,7 +391,7 @@ Lemma run_loop_path fuel l g : forall m r r', path_inv r -> run_loop fuel l g m 
 Proof.
   induction fuel as [|k IH]; intros m r r' H; [discriminate|].
   cbn [run_loop]. destruct (m_instr m) eqn:Ei.
-  - intros E; inversion E; subst. eexists; eexists; exact H.
+  - destruct (m_calls m); [intros E; inversion E; subst; eexists; eexists; exact H|apply IH; exact H].
   - pose proof (step_path l g m r H) as P.
     destruct (step l g m r) as [[m1 r1|r1]| | |]; cbn [bind]; try discriminate.
     + apply IH; exact P.
